@@ -67,9 +67,23 @@ def ttm_dense_matvec(E, s):
     d = len(s['N'])
     A, Ac = tt_input(E, 'A', s['N'], s['RA'], s['dtype'], s['M'], via=s.get('via'))
     B = list(s['batch'])
-    x = E.tensor('x', B + list(s['N']), s['dtype'])
-    y = A @ x
+    x = E.tensor('x', B + list(s['N']), s.get('dtype_x', s['dtype']))
     nb = len(B)
+    if s.get('dtype_x') and s['dtype_x'] != s['dtype']:
+        # dense operand of another dtype: the product is either refused or it is the dense product in the promoted dtype
+        tn = E.tn
+        try:
+            y = A @ x
+        except Exception as exc:          # noqa
+            E.note('raised', type(exc).__name__)
+            return
+        pdt = tn.promote_types(E.dt(s['dtype']), E.dt(s['dtype_x']))
+        ref = tn.tensordot(x.to(dtype=pdt), dense(E, [c.to(dtype=pdt) for c in Ac]), dims=(list(range(nb, nb + d)), list(range(d, 2 * d))))
+        E.true('is_dense', tn.is_tensor(y))
+        E.eq('value', y, ref)
+        E.true('dtype', y.dtype == pdt)
+        return
+    y = A @ x
     ref = E.tn.tensordot(x, dense(E, Ac), dims=(list(range(nb, nb + d)), list(range(d, 2 * d))))
     E.true('is_dense', E.tn.is_tensor(y))
     E.eq('value', y, ref)
